@@ -178,7 +178,11 @@ pub fn run(thorough: bool, mut rng: Rng, mut out: Out) {
     // one case in `DRIVE_EVERY` also goes through a live connection (about 400 in quick, 8000 in thorough)
     DRIVE_EVERY.with(|d| d.set(if thorough { 60 } else { 110 }));
     // corpus: witnesses of F1..F5
-    for w in ["3000", "300702010161020a05", "300c02010161070a010004000400a0073005040131010 0", "30"] {
+    // … and the three rejection branches of the envelope extraction that the coverage run (tools/coverage.sh) found
+    // no quick-tier case reached: only the AD-workaround element [10]; only a controls element [0]; an empty INTEGER
+    // as message ID
+    for w in ["3000", "300702010161020a05", "300c02010161070a010004000400a0073005040131010 0", "30",
+              "30028a00", "3002a000", "3005a0008a0130", "30040200 6100", "3007020061008a00"] {
         let w: String = w.chars().filter(|c| *c != ' ').collect();
         case(&mut out, "corpus", &unhex(&w), None);
     }
